@@ -53,7 +53,7 @@ def contents_witness(name, marker, rho, defs):
     ty = "%s<%s>" % (name, ", ".join(PAYLOAD_TY[p] for p in rho)) if rho else name
     bad = [i for i, p in enumerate(rho) if not (p[0] if marker == 0 else p[1])]
     return ty, ("// compiles against /repo/cglue: %s is %s although it holds a value (type parameter(s) %s) that is not\n"
-                "#![allow(dead_code, unused_imports)]\nuse cglue::prelude::v1::*; use cglue::*; use cglue::arc::*; use cglue::boxed::*; use cglue::forward::*; use cglue::trait_group::*;\n"
+                "#![allow(dead_code, unused_imports)]\nuse cglue::prelude::v1::*; use cglue::*; use cglue::arc::*; use cglue::boxed::*; use cglue::forward::*; use cglue::trait_group::*; use cglue::vec::*; use cglue::slice::*; use cglue::option::*; use cglue::result::*; use cglue::callback::*; use cglue::iter::*; use cglue::repr_cstring::*; use cglue::tuple::*;\n"
                 "%s\npub struct NotSendButSync(std::sync::MutexGuard<'static, u32>);\nfn need_send<T: Send>() {}\nfn need_sync<T: Sync>() {}\n"
                 "fn main() { %s::<%s>(); }\n" % (ty, "Send" if marker == 0 else "Sync", bad, defs, need, ty))
 
@@ -75,7 +75,7 @@ def compiles(prog, tag):
 def witness_program(row, marker, defs):
     need = "need_send" if marker == "Send" else "need_sync"
     return ("// compiles against /repo/cglue: the opaque form is %s although the source handle is not\n"
-            "#![allow(dead_code, unused_imports)]\nuse cglue::prelude::v1::*; use cglue::*; use cglue::arc::*; use cglue::boxed::*; use cglue::forward::*; use cglue::trait_group::*;\n"
+            "#![allow(dead_code, unused_imports)]\nuse cglue::prelude::v1::*; use cglue::*; use cglue::arc::*; use cglue::boxed::*; use cglue::forward::*; use cglue::trait_group::*; use cglue::vec::*; use cglue::slice::*; use cglue::option::*; use cglue::result::*; use cglue::callback::*; use cglue::iter::*; use cglue::repr_cstring::*; use cglue::tuple::*;\n"
             "%s\npub struct NotSendButSync(std::sync::MutexGuard<'static, u32>);\n"
             "fn need_send<T: Send>() {}\nfn need_sync<T: Sync>() {}\n"
             "type Src = %s;\ntype Opaque = <Src as Opaquable>::OpaqueTarget;   // = %s\n"
@@ -208,7 +208,7 @@ def run(tier, seed, replay):
                     if len(violations) < 3:
                         need = "need_send" if marker == "Send" else "need_sync"
                         prog = ("// compiles against /repo/cglue: the container is %s although the instance handle it is built around is not\n"
-                                "#![allow(dead_code, unused_imports)]\nuse cglue::prelude::v1::*; use cglue::*; use cglue::arc::*; use cglue::boxed::*; use cglue::forward::*; use cglue::trait_group::*;\n"
+                                "#![allow(dead_code, unused_imports)]\nuse cglue::prelude::v1::*; use cglue::*; use cglue::arc::*; use cglue::boxed::*; use cglue::forward::*; use cglue::trait_group::*; use cglue::vec::*; use cglue::slice::*; use cglue::option::*; use cglue::result::*; use cglue::callback::*; use cglue::iter::*; use cglue::repr_cstring::*; use cglue::tuple::*;\n"
                                 "%s\npub struct NotSendButSync(std::sync::MutexGuard<'static, u32>);\nfn need_send<T: Send>() {}\nfn need_sync<T: Sync>() {}\n"
                                 "type Handle = %s;\ntype Container = %s;\nfn main() { %s::<Container>(); /* %s::<Handle>() does not compile */ }\n"
                                 % (marker, defs, base[2], meta_row["src"], need, need))
